@@ -1424,7 +1424,7 @@ def run(ctx):
                 batch.append(({'src': src, 'ops': list(seq)}, 'last'))
                 ctx.count(f'exhaustive:len{n}')
     # random histories, every model layout
-    n_rand = ctx.budget(250, 3000)
+    n_rand = ctx.budget(250, 2000)
     lay = layouts()
     for i in range(n_rand):
         src = lay[i % len(lay)] if i < 2 * len(lay) else rng.choice(lay)
